@@ -26,6 +26,7 @@ type GenOpts struct {
 	NoOrdered       bool
 	OrderedSiblings bool // allow ordered lists that have sibling nodes in their parent container
 	ZeroLenBinary   bool // representation class: zero-length (non-nil) binary values
+	EmptyLists      bool // representation class: non-nil keyed/ordered lists without entries
 }
 
 // DefaultGen is the baseline option set.
@@ -200,6 +201,9 @@ func (g *Gen) setField(sv reflect.Value, f *FieldInfo, path []PathElem, depth in
 		if depth >= g.Opt.MaxDepth {
 			return false
 		}
+		if g.emptyList(fv, f) {
+			return false
+		}
 		return g.setList(sv, f, path, depth)
 	case KOrdered:
 		if depth >= g.Opt.MaxDepth || g.Opt.NoOrdered {
@@ -207,6 +211,9 @@ func (g *Gen) setField(sv reflect.Value, f *FieldInfo, path []PathElem, depth in
 		}
 		if !g.Opt.OrderedSiblings && g.C.Info(sv.Type()).numDataFields() > 1 {
 			g.Skipped["ordered-with-siblings"]++
+			return false
+		}
+		if g.emptyList(fv, f) {
 			return false
 		}
 		return g.setList(sv, f, path, depth)
@@ -239,6 +246,26 @@ func (g *Gen) setField(sv reflect.Value, f *FieldInfo, path []PathElem, depth in
 }
 
 func (si *StructInfo) numDataFields() int { return len(si.Fields) }
+
+// emptyList sometimes (EmptyLists only) leaves a non-nil list without entries.
+func (g *Gen) emptyList(fv reflect.Value, f *FieldInfo) bool {
+	if !g.Opt.EmptyLists {
+		return false
+	}
+	if la := f.Entry.ListAttr; g.Opt.Valid && la != nil && la.MinElements > 0 {
+		return false
+	}
+	if !g.coin(0.2) {
+		return false
+	}
+	if f.Kind == KList {
+		fv.Set(reflect.MakeMap(fv.Type()))
+	} else {
+		fv.Set(reflect.New(fv.Type().Elem()))
+	}
+	g.Tags["empty-list"]++
+	return true
+}
 
 func (g *Gen) hasDeferredUnder(sv reflect.Value) bool {
 	for _, d := range g.deferred {
@@ -670,11 +697,31 @@ func (g *Gen) buildEntries(sv reflect.Value, f *FieldInfo, path []PathElem, dept
 	}
 	seen := map[string]bool{}
 	made := 0
-	for tries := 0; made < n && tries < n*8+8; tries++ {
+	// Key-text collision family: in lists with two or more unrestricted string
+	// keys, sometimes create a pair of entries whose keys differ but whose
+	// space-joined renderings coincide, ("x t","s") and ("x","t s").
+	var strKeys []*FieldInfo
+	if keyPool == nil {
+		for _, kf := range kfs {
+			if t := f.Elem.Elem().Field(kf.Idx).Type; t.Kind() == reflect.Ptr && t.Elem().Kind() == reflect.String {
+				plain := kf.YType != nil && kf.YType.Kind == yang.Ystring && len(kf.YType.Pattern) == 0 && len(kf.YType.POSIXPattern) == 0 && len(kf.YType.Length) == 0
+				if plain || (kf.LeafrefPath != "" && leafrefInsideEntry(kf.LeafrefPath)) {
+					strKeys = append(strKeys, kf)
+				}
+			}
+		}
+	}
+	var twin map[int]reflect.Value
+	for tries := 0; (made < n || twin != nil) && tries < n*8+8; tries++ {
 		ent := reflect.New(f.Elem.Elem())
 		okAll := true
+		isTwin := twin != nil
 		for i, kf := range kfs {
 			kfv := ent.Elem().Field(kf.Idx)
+			if isTwin {
+				kfv.Set(twin[kf.Idx])
+				continue
+			}
 			if keyPool != nil && i == 0 {
 				if len(keyPool) == 0 {
 					okAll = false
@@ -693,8 +740,24 @@ func (g *Gen) buildEntries(sv reflect.Value, f *FieldInfo, path []PathElem, dept
 			}
 			kfv.Set(v)
 		}
+		twin = nil
 		if !okAll {
 			continue
+		}
+		if !isTwin && len(strKeys) >= 2 && len(strKeys) == len(kfs) && g.Opt.Hostile && g.coin(0.3) {
+			k0, k1 := ent.Elem().Field(strKeys[0].Idx), ent.Elem().Field(strKeys[1].Idx)
+			x, s2 := k0.Elem().String(), k1.Elem().String()
+			tok := string(rune('a' + g.Rng.Intn(26)))
+			twin = map[int]reflect.Value{}
+			for _, kf := range kfs {
+				c := ent.Elem().Field(kf.Idx).Elem().String()
+				twin[kf.Idx] = reflect.ValueOf(&c)
+			}
+			a, b := x, tok+" "+s2
+			twin[strKeys[0].Idx], twin[strKeys[1].Idx] = reflect.ValueOf(&a), reflect.ValueOf(&b)
+			x2 := x + " " + tok
+			k0.Set(reflect.ValueOf(&x2))
+			g.Tags["key-text-collision"]++
 		}
 		ks := PathElem{Name: "k", Keys: g.C.EntryKeys(ent), Pos: -1}.String()
 		if seen[ks] {
